@@ -101,7 +101,16 @@ pub async fn restart_node_service(
         service_manager.start().await?;
     } else {
         debug!("Starting a new node since retain peer id is false.");
-        let new_node_number = highest_node_number + 1;
+        let new_node_number = highest_node_number.checked_add(1).ok_or_else(|| {
+            error!(
+                "Too many services: the service numbers would exceed {}",
+                u16::MAX
+            );
+            eyre!(
+                "Too many services: the service numbers would exceed {}",
+                u16::MAX
+            )
+        })?;
         let new_service_name = format!("antnode{new_node_number}");
 
         // example path "log_dir_path":"/var/log/antnode/antnode18"
